@@ -27,7 +27,7 @@ type c14 struct{ base }
 
 func init() {
 	runner.Register(&c14{base{id: "C14", level: "exploration",
-		rule: "for value trees from C10's boundary set and seeded trees: EVERY mutable location reachable from the SDK structures (each *string / *bool target, each string/bool member field, each []byte element, each slice element, each map entry; found generically with reflect) is poked, one location per fresh client: R1 inputs – after PutItem / UpdateItem (Key and ExpressionAttributeValues) / BatchWriteItem returned, poking the request structure must not change what GetItem and Scan return; R2 outputs – poking the structure returned by GetItem / Query / Scan / BatchGetItem / UpdateItem / DeleteItem(ALL_OLD) / ConditionalCheckFailed.Item must not change a later read; R3 – a result held by the caller must not change when the item is later overwritten, updated in place, deleted or the table cleared. non-trivial = the poked location lies inside a nested container or behind a pointer; distinct by (adapter, operation, path-kind sequence).",
+		rule: "for value trees from C10's boundary set and seeded trees: EVERY mutable location reachable from the SDK structures (each *string / *bool target, each string/bool member field, each []byte element, each slice element, each map entry; found generically with reflect) is poked, one location per fresh client: every case runs on one of three key flavours (S hash; B hash + B range; N hash + S range), so the KEY attributes are poked too. R1 inputs – after PutItem / UpdateItem (Key and ExpressionAttributeValues, on an existing item and as an upsert that creates the item from the request Key) / GetItem and DeleteItem keys / BatchWriteItem returned, poking the request structure must not change what GetItem and Scan return; R2 outputs – poking the structure returned by GetItem / Query / Scan / BatchGetItem / UpdateItem / DeleteItem(ALL_OLD) / ConditionalCheckFailed.Item must not change a later read; R3 – a result held by the caller must not change when the item is later overwritten, updated in place, deleted or the table cleared. non-trivial = the poked location lies inside a nested container or behind a pointer; distinct by (adapter, operation, path-kind sequence).",
 		assumptions: commonAssumptions}})
 }
 
@@ -169,11 +169,49 @@ type c14Op struct {
 	run func(adapter string, cl adapt.Client, item val.Item) (root interface{}, expect val.Item, ok bool)
 }
 
-var c14Key = val.Item{"h": val.Str("k")}
+// key flavours: the poked structures include the KEY attributes, whose Go representation differs by type
+// (S and N are immutable strings behind pointers / members, B is a byte slice the library has to copy)
+type c14Flavour struct {
+	name string
+	spec adapt.TableSpec
+	key  val.Item
+}
+
+var c14Flavours = []c14Flavour{
+	{"S", adapt.TableSpec{Name: "tbl14", Hash: "h", Billing: "PAY_PER_REQUEST"}, val.Item{"h": val.Str("k")}},
+	{"B+B", adapt.TableSpec{Name: "tbl14", Hash: "h", HashT: "B", Range: "r", RangeT: "B", Billing: "PAY_PER_REQUEST"}, val.Item{"h": val.Bin("\x01\x02\x03"), "r": val.Bin("\x0a\x0b")}},
+	{"N+S", adapt.TableSpec{Name: "tbl14", Hash: "h", HashT: "N", Range: "r", Billing: "PAY_PER_REQUEST"}, val.Item{"h": val.Num("42"), "r": val.Str("rk")}},
+}
+
+// the flavour of the running case (cases of one worker process run one after another)
+var c14Spec = c14Flavours[0].spec
+var c14Key = c14Flavours[0].key
+
+func setFlavour(i int) string {
+	f := c14Flavours[i%len(c14Flavours)]
+	c14Spec, c14Key = f.spec, f.key
+	return f.name
+}
 
 func withKey(it val.Item) val.Item {
 	o := it.Clone()
-	o["h"] = val.Str("k")
+	for k, v := range c14Key {
+		o[k] = v
+	}
+	return o
+}
+
+// a second key of the same table that sorts AFTER c14Key
+func c14SecondKey() val.Item {
+	o := c14Key.Clone()
+	switch c14Key["h"].K {
+	case val.KS:
+		o["h"] = val.Str("zz")
+	case val.KB:
+		o["h"] = val.Bin("\xf0\xf1")
+	default:
+		o["h"] = val.Num("4200")
+	}
 	return o
 }
 
@@ -222,6 +260,37 @@ func c14Ops() []c14Op {
 			in := &v2ddb.UpdateItemInput{TableName: v2aws.String("tbl14"), Key: adapt.ItemToV2(c14Key), UpdateExpression: v2aws.String(expr), ExpressionAttributeNames: al, ExpressionAttributeValues: adapt.ItemToV2(vals)}
 			_, err := cl.Raw().(*v2client.Client).UpdateItem(ctx, in)
 			return map[string]interface{}{"values": in.ExpressionAttributeValues, "key": in.Key}, withKey(item), err == nil
+		}},
+		{"input/UpdateItem.Key(upsert)", func(ad string, cl adapt.Client, item val.Item) (interface{}, val.Item, bool) {
+			// the item does not exist: UpdateItem creates it from the KEY attributes of the request plus the update
+			exp := withKey(val.Item{"created": val.Str("yes")})
+			if ad == "v1" {
+				in := &v1ddb.UpdateItemInput{TableName: aws.String("tbl14"), Key: adapt.ItemToV1(c14Key), UpdateExpression: aws.String("SET created = :t"), ExpressionAttributeValues: adapt.ItemToV1(val.Item{":t": val.Str("yes")})}
+				_, err := cl.Raw().(*v1client.Client).UpdateItem(in)
+				return in.Key, exp, err == nil
+			}
+			in := &v2ddb.UpdateItemInput{TableName: v2aws.String("tbl14"), Key: adapt.ItemToV2(c14Key), UpdateExpression: v2aws.String("SET created = :t"), ExpressionAttributeValues: adapt.ItemToV2(val.Item{":t": val.Str("yes")})}
+			_, err := cl.Raw().(*v2client.Client).UpdateItem(ctx, in)
+			return in.Key, exp, err == nil
+		}},
+		{"input/Delete+Get.Key", func(ad string, cl adapt.Client, item val.Item) (interface{}, val.Item, bool) {
+			// the keys handed to GetItem and to a DeleteItem of ANOTHER key must not become part of the stored state
+			it := withKey(item)
+			if cl.Do(adapt.Op{Kind: adapt.OpPut, Table: "tbl14", Item: it}).Class != adapt.ClsOK {
+				return nil, nil, false
+			}
+			if ad == "v1" {
+				g := &v1ddb.GetItemInput{TableName: aws.String("tbl14"), Key: adapt.ItemToV1(c14Key)}
+				d := &v1ddb.DeleteItemInput{TableName: aws.String("tbl14"), Key: adapt.ItemToV1(c14SecondKey())}
+				_, e1 := cl.Raw().(*v1client.Client).GetItem(g)
+				_, e2 := cl.Raw().(*v1client.Client).DeleteItem(d)
+				return map[string]interface{}{"get": g.Key, "delete": d.Key}, it, e1 == nil && e2 == nil
+			}
+			g := &v2ddb.GetItemInput{TableName: v2aws.String("tbl14"), Key: adapt.ItemToV2(c14Key)}
+			d := &v2ddb.DeleteItemInput{TableName: v2aws.String("tbl14"), Key: adapt.ItemToV2(c14SecondKey())}
+			_, e1 := cl.Raw().(*v2client.Client).GetItem(ctx, g)
+			_, e2 := cl.Raw().(*v2client.Client).DeleteItem(ctx, d)
+			return map[string]interface{}{"get": g.Key, "delete": d.Key}, it, e1 == nil && e2 == nil
 		}},
 		{"input/BatchWriteItem.Put", func(ad string, cl adapt.Client, item val.Item) (interface{}, val.Item, bool) {
 			it := withKey(item)
@@ -272,13 +341,13 @@ func c14Ops() []c14Op {
 		}},
 		{"output/Query", func(ad string, cl adapt.Client, it val.Item) (interface{}, val.Item, bool) {
 			if ad == "v1" {
-				out, err := cl.Raw().(*v1client.Client).Query(&v1ddb.QueryInput{TableName: aws.String("tbl14"), KeyConditionExpression: aws.String("h = :h"), ExpressionAttributeValues: adapt.ItemToV1(val.Item{":h": val.Str("k")})})
+				out, err := cl.Raw().(*v1client.Client).Query(&v1ddb.QueryInput{TableName: aws.String("tbl14"), KeyConditionExpression: aws.String("h = :h"), ExpressionAttributeValues: adapt.ItemToV1(val.Item{":h": c14Key["h"]})})
 				if err != nil {
 					return nil, nil, false
 				}
 				return out.Items, it, true
 			}
-			out, err := cl.Raw().(*v2client.Client).Query(ctx, &v2ddb.QueryInput{TableName: v2aws.String("tbl14"), KeyConditionExpression: v2aws.String("h = :h"), ExpressionAttributeValues: adapt.ItemToV2(val.Item{":h": val.Str("k")})})
+			out, err := cl.Raw().(*v2client.Client).Query(ctx, &v2ddb.QueryInput{TableName: v2aws.String("tbl14"), KeyConditionExpression: v2aws.String("h = :h"), ExpressionAttributeValues: adapt.ItemToV2(val.Item{":h": c14Key["h"]})})
 			if err != nil {
 				return nil, nil, false
 			}
@@ -286,7 +355,7 @@ func c14Ops() []c14Op {
 		}},
 		{"output/Scan.LastEvaluatedKey", func(ad string, cl adapt.Client, it val.Item) (interface{}, val.Item, bool) {
 			// a second item so that Limit 1 leaves a LastEvaluatedKey; "k" sorts before "zz"
-			cl.Do(adapt.Op{Kind: adapt.OpPut, Table: "tbl14", Item: val.Item{"h": val.Str("zz")}})
+			cl.Do(adapt.Op{Kind: adapt.OpPut, Table: "tbl14", Item: c14SecondKey()})
 			var root interface{}
 			if ad == "v1" {
 				out, err := cl.Raw().(*v1client.Client).Scan(&v1ddb.ScanInput{TableName: aws.String("tbl14"), Limit: aws.Int64(1)})
@@ -301,7 +370,7 @@ func c14Ops() []c14Op {
 				}
 				root = out.LastEvaluatedKey
 			}
-			cl.Do(adapt.Op{Kind: adapt.OpDelete, Table: "tbl14", Key: val.Item{"h": val.Str("zz")}})
+			cl.Do(adapt.Op{Kind: adapt.OpDelete, Table: "tbl14", Key: c14SecondKey()})
 			return root, it, true
 		}},
 		{"output/UpdateItem.Attributes", func(ad string, cl adapt.Client, it val.Item) (interface{}, val.Item, bool) {
@@ -371,7 +440,7 @@ func c14Items() []val.Item {
 var c14ItemList = c14Items()
 
 func (p *c14) NumCases(tier string) int {
-	n := len(c14ItemList)*len(c14OpList)*2 + len(c14ItemList)*2
+	n := (len(c14ItemList)*len(c14OpList)*2 + len(c14ItemList)*2) * len(c14Flavours)
 	if tier == "thorough" {
 		return n + 2000
 	}
@@ -391,7 +460,7 @@ func readBack(cl adapt.Client) (val.Item, string) {
 }
 
 func (p *c14) pokeAll(x *res, adapter string, op c14Op, item val.Item, ctx *runner.Ctx) {
-	spec := mon.SpecHashOnly("tbl14")
+	spec := c14Spec
 	// first run to enumerate the locations
 	cl0, _, _ := freshClient(adapter, spec)
 	root0, _, ok := op.run(adapter, cl0, item)
@@ -427,7 +496,7 @@ func (p *c14) pokeAll(x *res, adapter string, op c14Op, item val.Item, ctx *runn
 		}
 		x.r.Evals++
 		x.r.Counters["pokes"]++
-		x.fp(nestedPath(loc.path), "%s|%s|%s", adapter, op.name, pathKinds(loc.path))
+		x.fp(nestedPath(loc.path), "%s|%s|%s|%s", adapter, c14Spec.HashT+c14Spec.RangeT, op.name, pathKinds(loc.path))
 		var got val.Item
 		var problem string
 		func() {
@@ -460,7 +529,7 @@ func lastKind(p string) string {
 
 // heldResults: R3 – results already returned must not change when the item is written later.
 func (p *c14) heldResults(x *res, adapter string, item val.Item, ctx *runner.Ctx) {
-	spec := mon.SpecHashOnly("tbl14")
+	spec := c14Spec
 	for _, op := range c14OpList {
 		if !strings.HasPrefix(op.name, "output") {
 			continue
@@ -474,7 +543,7 @@ func (p *c14) heldResults(x *res, adapter string, item val.Item, ctx *runner.Ctx
 			snap := fmt.Sprintf("%s", normalizeAny(root))
 			switch later {
 			case "overwrite":
-				cl.Do(adapt.Op{Kind: adapt.OpPut, Table: "tbl14", Item: val.Item{"h": val.Str("k"), "s": val.Str("other"), "l": val.List(val.Str("x"))}})
+				cl.Do(adapt.Op{Kind: adapt.OpPut, Table: "tbl14", Item: withKey(val.Item{"s": val.Str("other"), "l": val.List(val.Str("x"))})})
 			case "update-in-place":
 				for k, v := range item {
 					switch v.K {
@@ -497,7 +566,7 @@ func (p *c14) heldResults(x *res, adapter string, item val.Item, ctx *runner.Ctx
 			}
 			x.r.Evals++
 			x.r.Counters["held_results_checked"]++
-			x.fp(true, "held|%s|%s|%s", adapter, op.name, later)
+			x.fp(true, "held|%s|%s|%s|%s", adapter, c14Spec.HashT+c14Spec.RangeT, op.name, later)
 			now := fmt.Sprintf("%s", normalizeAny(root))
 			if now != snap {
 				x.viol("held-result-changed", adapter+"/"+op.name+"/"+later, fmt.Sprintf("[%s] the structure returned by %s changed after a later %s: was %s, now %s", adapter, op.name, later, snap, now),
@@ -542,6 +611,17 @@ func (p *c14) RunCase(ctx *runner.Ctx) runner.CaseResult {
 	x := newRes()
 	ni, no := len(c14ItemList), len(c14OpList)
 	c := ctx.Case
+	nf := len(c14Flavours)
+	fixed := (ni*no*2 + ni*2) * nf
+	fl := ""
+	if c < fixed {
+		fl = setFlavour(c % nf)
+		c = c / nf
+	} else {
+		fl = setFlavour(c)
+		c = c - fixed + ni*no*2 + ni*2
+	}
+	x.set("key_flavours", fl)
 	switch {
 	case c < ni*no*2:
 		adapter := adapt.Adapters[c%2]
